@@ -42,7 +42,7 @@ OP_BASES = [
 POOL = [None, "", 0, 1, True, False, [], {}, {"a": 1}, "x", "none", "implicit", ["x"], ["none"], ["RS256", "none"], [{}], [["a"]], ["implicit"], ["authorization_code"],
         ["client_credentials"], ["private_key_jwt"], ["client_secret_jwt", "client_secret_basic"], ["public", "pairwise"], ["public", "other"], ["page"], ["page", "tv"],
         ["normal", "distributed"], ["RS256"], ["HS256"], [1], [None], [True], "https://x.example/y", "https://x.example/y?q=1", "https://x.example/y#frag", "https://x.example?",
-        "http://x.example/y", "http://localhost:8080/y", "HTTPS://X.EXAMPLE", "https://", "https:///path", "ftp://files.example/x", "x.example/y", "//x.example/y",
+        "http://x.example/y", "http://localhost:8080/y", "http://localhost.attacker.example/y", "http://localhostess.example/y", "http://localhost@evil.example/y", "http://localhost/y", "HTTPS://X.EXAMPLE", "https://", "https:///path", "ftp://files.example/x", "x.example/y", "//x.example/y",
         "mailto:a@b.example", "https://u:p@x.example:8443/p", "https:x", 2, -1, "https://:8443/p", "https://user@/p"]
 DROP = object()
 
@@ -450,6 +450,14 @@ def registration_cases(rng, tier):
                 p.pop("client_secret")
             ops.append(upd(p, target))
         case(sm, ops, "update-walk")
+    # the server's metadata changes while the same endpoint instances keep serving: every request is judged by the metadata in force
+    wide, narrow, nothing, other = SMS[0], SMS[1], SMS[2], SMS[3]
+    p_b = dict(REG_BASE, scope="b", grant_types=["implicit"], response_types=["token"], token_endpoint_auth_method="client_secret_basic")
+    p_post = dict(REG_BASE, token_endpoint_auth_method="client_secret_post")
+    for first, second in ((wide, narrow), (nothing, narrow), (narrow, wide), (wide, other), (nothing, wide), (wide, nothing)):
+        for probe in (p_b, p_post, dict(REG_BASE), {k: v for k, v in REG_BASE.items() if k != "token_endpoint_auth_method"}):
+            case(first, [reg(dict(probe)), dict(reg(dict(probe)), sm=second), reg(dict(REG_BASE))], "metadata-change")
+            case(first, [reg(dict(probe)), dict(upd(dict(probe, client_id="client1", client_secret="secret1"), "client1"), sm=second)], "metadata-change")
     return out
 
 
@@ -466,6 +474,8 @@ def run_registration(c):
     w = rw.RegWorld(copy.deepcopy(c["sm"]))
     outs = []
     for op in c["ops"]:
+        if "sm" in op:
+            w.server_metadata = copy.deepcopy(op["sm"])       # the same endpoint instances keep serving
         if op["op"] == "register":
             o = w.register(copy.deepcopy(op["payload"]), {"initial": rw.INITIAL_TOKEN, "wrong": "nope", None: None}.get(op["tok"], op["tok"]))
         else:
@@ -505,10 +515,17 @@ def _abs_uri(u):
 
 def registration_oracle(c, out, bad):
     sm = c["sm"]
-    prev_store = {}
+    sm_of, nreg = {}, 0
     # the store is only observed at the end; per-step `changed` flags tell which requests wrote
     for op, o in zip(c["ops"], out["outs"]):
+        sm = op.get("sm", sm)
         refused = "raised" in o or o.get("status", 500) >= 400
+        if not refused:
+            if op["op"] == "register":
+                nreg += 1
+                sm_of[f"client{nreg}"] = sm
+            elif op.get("tok"):
+                sm_of[op["tok"]] = sm
         if refused and o.get("changed"):
             bad(f"{op['op']} was refused ({o.get('status')} {o.get('error')}) but the client store changed", kind="refused-but-stored", op=op["op"])
         if op["op"] == "register" and op["tok"] != "initial" and not refused:
@@ -524,6 +541,7 @@ def registration_oracle(c, out, bad):
             if why:
                 bad(f"an update {why} was accepted", kind="update-wrongly-accepted", why=why.split(" ")[0] + " " + why.split(" ")[1])
     for cid, md in out["raw_store"].items():
+        sm = sm_of.get(cid, c["sm"])          # the metadata in force when this client was last written
         for k in ("client_uri", "logo_uri", "tos_uri", "policy_uri", "jwks_uri"):
             v = md.get(k)
             if v and not _abs_uri(v):
